@@ -270,8 +270,8 @@ fn check_state(s: &St, obs: &mut Obs) {
     }
     // as_image() seen through target windows and through the clipped adapter: cut at the left/top by a window at the
     // origin, two rows and a column cut by a window inside, three rows cut
-    for (at, win) in [((-1, -2), (0, 0, w as u32, h as u32)), ((0, 0), (1, 2, w as u32, h as u32)), ((0, 0), (0, 3, w as u32 + 1, h as u32)), ((2, 1), (2, 1, w as u32, h as u32))] {
-        for clipped in [false, true] {
+    for (at, win, clipped) in [((-1, -2), (0, 0, w as u32, h as u32), false), ((0, 0), (1, 2, w as u32, h as u32), true), ((0, 0), (0, 3, w as u32 + 1, h as u32), true), ((2, 1), (1, 1, w as u32, h as u32), false)] {
+        {
             let got = f.windowed_image_map(at, win, clipped);
             let wanted: Map<u32> = s.model.iter().map(|(k, v)| ((k.0 + at.0, k.1 + at.1), *v)).filter(|(k, _)| k.0 >= win.0 && k.1 >= win.1 && (k.0 as i64) < win.0 as i64 + win.2 as i64 && (k.1 as i64) < win.1 as i64 + win.3 as i64).collect();
             if got != wanted {
